@@ -101,7 +101,9 @@ def gen_case(seed, tier):
         elif r < 0.67:
             op = {'op': 'setdefault', 'k': k, 'v': v}
         elif r < 0.72:
-            op = {'op': 'update', 'items': [[rng.choice(keys), rng.choice(SMALL)] for _ in range(rng.randint(0, 3))]}
+            op = {'op': 'update', 'items': [[rng.choice(keys), rng.choice(SMALL)] for _ in range(rng.randint(0, 3))],
+                  # what is handed over: a list of pairs, a generator, a generator that fails after its pairs, a dict, keywords
+                  'src': rng.choice(('list', 'list', 'gen', 'raise', 'dict', 'badpair'))}
         elif r < 0.80:
             op = {'op': rng.choice(('keys', 'values', 'items', 'iter', 'reversed', 'len'))}
         elif r < 0.86:
@@ -208,7 +210,23 @@ def apply_both(ix, ref, op, world=None):
         return _norm(lambda: ix.setdefault(k, v)), _norm(lambda: ref.setdefault(HKey(k), v))
     if name == 'update':
         items = [(vals.dec(a), vals.dec(b)) for a, b in op['items']]
-        return _norm(lambda: ix.update(items)), _norm(lambda: ref.update([(HKey(a), b) for a, b in items]))
+        src = op.get('src', 'list')
+
+        def source(pairs):
+            if src == 'list':
+                return list(pairs)
+            if src == 'dict':
+                return dict(pairs)
+            if src == 'badpair':
+                return list(pairs) + [('only-one-member',)]
+
+            def gen():
+                for pair in pairs:
+                    yield pair
+                if src == 'raise':
+                    raise ZeroDivisionError('the source fails after %d pairs' % len(pairs))
+            return gen()
+        return _norm(lambda: ix.update(source(items))), _norm(lambda: ref.update(source([(HKey(a), b) for a, b in items])))
     if name == 'keys':
         return _norm(lambda: [fp(k) for k in ix.keys()]), _norm(lambda: [fp(k.key) for k in ref.keys()])
     if name == 'iter':
